@@ -68,6 +68,9 @@ ASSUMPTIONS = [
     "floats are opaque tokens (repr of finite floats): NaN/inf are outside the quantifier (typed float fields dump them as null)",
     "dynamic fields and StopEvent results hold JSON values; a pydantic model or Event stored *inside* _data or as a "
     "result is dumped to a plain dict by pydantic and comes back as a dict (outside 'JSON-representable payloads')",
+    "`_get_result` overrides are pure, total functions of the instance (raw payload, JSON-typed typed fields, dynamic "
+    "fields) with JSON values: the generated shapes are wrap / combine / size / total / first / default and their "
+    "compositions through super(); overrides with side effects or reading state outside the event are outside the model",
     "class shapes are those pydantic accepts and that can be instantiated: no field called self/_x, a StopEvent "
     "subclass does not redeclare `result`; typed fields of type SerializableEvent / datetime (StepFailedEvent) are "
     "not in the model's type language: StepFailedEvent is covered by the monitors only",
